@@ -217,4 +217,21 @@ Theorem index_of_inj l d d' : In d l -> In d' l -> index_of deqb d l = index_of 
 Proof.
   intros H H' E. rewrite <- (index_of_nth d l d H), <- (index_of_nth d l d' H'), E. reflexivity.
 Qed.
+(* DE-DUPLICATION: digests already in the table add nothing, in any number and order *)
+Theorem fold_add_known : forall later t, (forall d, In d later -> In d t) ->
+  fold_left (add_digest deqb) later t = t.
+Proof.
+  induction later as [|x later IH]; intros t Hall; cbn [fold_left]; [reflexivity|].
+  assert (E : add_digest deqb t x = t).
+  { unfold add_digest. destruct (memd deqb x t) eqn:M; [reflexivity|].
+    assert (In x t) by (apply Hall; left; reflexivity). apply memd_In in H. congruence. }
+  rewrite E. apply IH. intros d Hd. apply Hall. right. exact Hd.
+Qed.
+
+Theorem table_known_suffix ds later : (forall d, In d later -> In d ds) ->
+  table_of deqb (ds ++ later) = table_of deqb ds.
+Proof.
+  intros Hall. unfold table_of. rewrite fold_left_app. apply fold_add_known.
+  intros d Hd. apply (proj2 (table_spec ds)). apply Hall. exact Hd.
+Qed.
 End Table.
